@@ -16,7 +16,6 @@ import (
 	"github.com/bluenviron/gortsplib/v5"
 	"github.com/bluenviron/gortsplib/v5/pkg/auth"
 	"github.com/bluenviron/gortsplib/v5/pkg/base"
-	"github.com/bluenviron/gortsplib/v5/pkg/liberrors"
 	"github.com/google/uuid"
 
 	"github.com/bluenviron/mediamtx/internal/certloader"
@@ -582,15 +581,21 @@ func (s *Server) APISessionsKick(uuid uuid.UUID) error {
 	}
 
 	s.mutex.RLock()
-	defer s.mutex.RUnlock()
+	_, sx := s.findSessionByUUID(uuid)
+	s.mutex.RUnlock()
 
-	key, sx := s.findSessionByUUID(uuid)
 	if sx == nil {
 		return ErrSessionNotFound
 	}
 
 	sx.Close()
-	delete(s.sessions, key)
-	sx.onClose(liberrors.ErrServerTerminated{})
+
+	// wait for OnSessionClose(), that is called by the library once no other callback
+	// of the session can run, removes the session from the list and calls onClose().
+	select {
+	case <-sx.closed:
+	case <-s.ctx.Done():
+	}
+
 	return nil
 }
